@@ -521,7 +521,11 @@ func (f *Formatter) formatErrorStatement(stmt *ast.ErrorStatement) string {
 	defer bufferPool.Put(buf)
 
 	buf.Reset()
-	buf.WriteString("error " + f.formatExpression(stmt.Code).String())
+	buf.WriteString("error")
+	// status code is arbitrary ("error;" is valid VCL)
+	if stmt.Code != nil {
+		buf.WriteString(" " + f.formatExpression(stmt.Code).String())
+	}
 	// argument is arbitrary
 	if stmt.Argument != nil {
 		buf.WriteString(" " + f.formatExpression(stmt.Argument).ChunkedString(stmt.Nest, buf.Len()))
